@@ -31,7 +31,9 @@ CLASSES = {
   # message.properties: a dict used as a record with a few well-known keys
   'Props': dict(extern=True, path=None, bases=[], dictlike={
     '__Tag': ('tag', 'int?'), '__Deadline': ('deadline', 'real?'),
-    '__Deadline_Event': ('event', 'Observable?'), '__Endpoint': ('endpoint', 'any')}),
+    '__Deadline_Event': ('event', 'Observable?'), '__Endpoint': ('endpoint', 'any')},
+    # ghost: the frame carrying these properties has been handed to the socket
+    fields={'g_sent': 'bool'}, ghost=['g_sent']),
   'MethodReturnMessage': dict(extern=True, path=None, bases=['Message'], fields={'return_value': 'any', 'error': 'any', 'stack': 'any'}),
   'Deadline': dict(file='scales/message.py', path='Deadline', bases=[], fields={'_ts': 'int', '_timeout': 'int'}),
 }
